@@ -761,6 +761,9 @@ std::string isoProgram(int mask) {
     s += "class Z3 extends Z2 { public int c = 3; public constructor() -> Z3 { super(); return this; } public function all() -> int { return this.a + this.b + this.c; } }\n";
     s += "class Z2 extends Z1 { public int b = 2; public constructor() -> Z2 { super(); return this; } }\n";
     s += "class Z1 { public int a = 1; public constructor() -> Z1 { return this; } }\n";
+    // a static final field whose initialiser measures a qubit: evaluated afresh by every execution, with that execution's draws
+    s += "static class Coin { public static function flip() -> bit { qubit c; h(c); bit r = measure c; return r; } }\n";
+    s += "class Cfg { public static final bit side = Coin.flip(); public static final bit other = Coin.flip(); public constructor() -> Cfg { return this; } }\n";
     s += "function main() -> void {\n";
     s += "    Stats.runs = Stats.runs + 1;\n    echo(\"runs=\" + Stats.runs);\n";
     if (mask & 1) s += "    echo(0.25f);\n    echo(2.0f);\n    echo(\"ratio=\" + 0.75f);\n    Stats.acc = Stats.acc + 0.25f;\n    echo(Stats.acc);\n";
@@ -775,6 +778,7 @@ std::string isoProgram(int mask) {
     if (mask & 64) s += "    echo(mkLabel(new Circle()).what);\n    echo(mkLabel(new Shape()).what);\n";
     if (mask & 128) s += "    echo(\"deep\");\n    echo(rec(" + std::to_string(300 + 50 * ((mask >> 8) & 3)) + "));\n";
     if (mask & 1024) s += "    Probe sp = new Probe();\n    qubit keep = sp.q;\n    destroy sp;\n    x(keep);\n    Probe sp2 = new Probe();\n    bit sr = measure sp2.q;\n    echo(\"stale=\" + sr);\n    destroy sp2;\n";
+    if (mask & 8192) s += "    echo(\"side=\" + Cfg.side);\n    echo(\"other=\" + Cfg.other);\n";
     if (mask & 4096) s += "    Z3 z = new Z3();\n    echo(\"z=\" + z.all());\n";
     if (mask & 32) s += "    Cnt c1 = new Cnt();\n    Cnt c2 = new Cnt();\n    echo(c2.id);\n    echo(Cnt.made);\n";
     s += "    echo(\"made=\" + Cnt.made);\n    echo(\"rel3=\" + Stats.released);\n";
@@ -1013,7 +1017,7 @@ IsoPlan genIso(uint64_t seed, uint64_t run) {
         go.guardViolationProb = knob.chance(0.2) ? 0.1 : 0.0;
         p.qp = qh::generate(g, go);
     } else if (p.family == 3) { p.variantMask = (int)knob.below(3); p.K = 5; }
-    else p.variantMask = 1 + (int)knob.below(8191);
+    else p.variantMask = 1 + (int)knob.below(16383);
     return p;
 }
 
@@ -1116,6 +1120,7 @@ void runOne(const sim::Options& opt, uint64_t run, sim::RunReport& rep) {
         if (p.variantMask & 1024) rep.count("c18.gate_through_handle_of_destroyed_owner_then_reuse");
         if (p.variantMask & 2048) rep.count("c18.out_of_range_literal_on_executed_path");
         if (p.variantMask & 4096) rep.count("c18.class_chain_declared_most_derived_first");
+        if (p.variantMask & 8192) rep.count("c18.static_final_initialised_by_a_measurement");
     }
     sim::Hash h;
     h.add(sim::fnv1a(isoSource(p)));
@@ -1139,7 +1144,7 @@ void runOne(const sim::Options& opt, uint64_t run, sim::RunReport& rep) {
         std::function<bool(const std::vector<classprog::Stmt>&)> f = [&](const std::vector<classprog::Stmt>& m) { IsoPlan c = cur; c.cp.main = m; if (failsWith(c)) { cur = c; return true; } return false; };
         sim::ddmin<classprog::Stmt>(cur.cp.main, f, budget);
     } else if (cur.family == 2) {
-        for (int b = 0; b < 13; ++b) { IsoPlan c = cur; c.variantMask &= ~(1 << b); if (c.variantMask != cur.variantMask && failsWith(c)) cur = c; }
+        for (int b = 0; b < 14; ++b) { IsoPlan c = cur; c.variantMask &= ~(1 << b); if (c.variantMask != cur.variantMask && failsWith(c)) cur = c; }
     }
     while (cur.K > 2) { IsoPlan c = cur; c.K = cur.K - 1; if (failsWith(c)) cur = c; else break; }
     if (cur.reanalyse) { IsoPlan c = cur; c.reanalyse = false; if (failsWith(c)) cur = c; }
